@@ -152,7 +152,7 @@ def x1_core(ctx, res, roots, allowed, justified, x3_ok=True):
         detail = {"exception": exc, "root": root.short, "path": [f"root {root.short}"] + path}
         just = None
         for fshort, pred, jexc, reason, cond in justified:
-            if (o.func.short == fshort or fshort == "*") and jexc == exc and pred(o.text):
+            if (o.func.short == fshort or fshort == "*" or ctx.inf.helper_of(o.func, fshort)) and jexc == exc and pred(o.text):
                 if cond == "_cond_multipleof_only":
                     okc, msg = _cond_multipleof_only(ctx, o)
                     if not okc:
